@@ -800,6 +800,30 @@ func (se *specEnv) call(n *ast.CallExpr) specVal {
 				set = Store(set, t, True)
 			}
 			return specVal{V: set, T: &ghostArrayT{Type: untypedInt, elem: SBool}}
+		case "substr", "strcat":
+			// the engine's uninterpreted string functions, for contracts that describe parsing pipelines:
+			// substr(s, lo, hi) = s[lo:hi], strcat(a, b) = a + b
+			var ts []Term
+			for _, a := range n.Args {
+				t, ok := se.rval(se.evalRV(a)).(Term)
+				if !ok {
+					se.fail("%s: argument is not a string/integer", id.Name)
+				}
+				ts = append(ts, t)
+			}
+			se.x.ctx.declareFun("strlen", []Sort{SInt}, SInt)
+			if id.Name == "substr" {
+				if len(ts) != 3 {
+					se.fail("substr(s, lo, hi)")
+				}
+				se.x.ctx.declareFun("substr", []Sort{SInt, SInt, SInt}, SInt)
+				return specVal{V: app(SInt, "substr", ts...), T: types.Typ[types.String]}
+			}
+			if len(ts) != 2 {
+				se.fail("strcat(a, b)")
+			}
+			se.x.ctx.declareFun("strcat", []Sort{SInt, SInt}, SInt)
+			return specVal{V: app(SInt, "strcat", ts...), T: types.Typ[types.String]}
 		case "goarg":
 			// goarg(k, i): the i-th argument the k-th go statement (in execution order on this path) of
 			// the verified function was started with
